@@ -319,6 +319,8 @@ class Particle(Structure):
                 raise ValueError("You can pass either the semimajor axis or orbital period, but not both.")
             if a is None:
                 a = (P**2*simulation.G*(primary.m + self.m)/(4.*math.pi**2))**(1./3.)
+            if a == 0.:
+                raise ValueError("Semi-major axis (or orbital period) cannot be zero.")
             if notNone(pal):
                 # Pal orbital parameters
                 if h is None:
@@ -333,6 +335,8 @@ class Particle(Structure):
                     iy = 0.
                 if((ix*ix + iy*iy) > 4.0):
                     raise ValueError("Passed (ix, iy) coordinates are not valid, squared sum exceeds 4.")
+                if((h*h + k*k) >= 1.0):
+                    raise ValueError("Bound orbit (a > 0) must have e < 1.")
                 clibrebound.reb_particle_from_pal.restype = Particle
                 p = clibrebound.reb_particle_from_pal(c_double(simulation.G), primary, c_double(self.m), c_double(a), c_double(l), c_double(k), c_double(h), c_double(ix), c_double(iy))
             else:
